@@ -101,6 +101,9 @@ class LFDA(MahalanobisMixin, TransformerMixin):
     unique_classes, y = np.unique(y, return_inverse=True)
     n, d = X.shape
     num_classes = len(unique_classes)
+    # the scatter matrices are translation invariant: evaluate them on centred
+    # data, where their uncentred sums do not cancel catastrophically
+    X = X - X.mean(axis=0)
 
     dim = _check_n_components(d, self.n_components)
 
